@@ -91,6 +91,9 @@ type c38Case struct {
 	// When nil the client authenticates normally and sends Cmds.
 	Handshake *hsInput   `json:"handshake,omitempty"`
 	Cmds      []cmdInput `json:"cmds"`
+	// ConnDB (command phase): the database named in the well-formed handshake response: 0 the namespace's
+	// database, 1 a database the namespace does not know ("c38_unknown_db"), 2 none.
+	ConnDB int `json:"conn_db,omitempty"`
 }
 
 // ---- source of choices ----
@@ -386,7 +389,7 @@ var queryTexts = []string{
 	"/*!40101 select 1 */", "/* master */ select 2", "", ";", ";;", "select '", "select \"", "select `", "/*", "-- ", "\x00", "\xff\xfe\x00",
 	"select last_insert_id()", "explain select * from tbl_s where id = 1", "select 1; select 2", "kill 1", "kill query 99999",
 	"lock tables t_ok read", "unlock tables", "savepoint a", "rollback to a", "release savepoint a", "select * from", "select * from tbl_s where id =",
-	"use", "use `", "set", "set @a", "set @@session.sql_mode = ", "show", "select @@version_comment limit 1", "select database()",
+	"use", "use `", "use c38_unknown_db", "use nodb; select 1", "set", "set @a", "set @@session.sql_mode = ", "show", "select @@version_comment limit 1", "select database()",
 	"select * from tbl_s where id = 18446744073709551616", "select * from tbl_s where id = -1", "select * from tbl_s where id = 'x'",
 	"select * from tbl_s where id in ()", "insert into tbl_s values ()", "insert into tbl_s (id) values (null)", "replace into tbl_s (name) values ('q')",
 	"select nextval for seq", "select * from db.tbl_s where tbl_s.id = 1", "select * from nodb.t where id = 1", "desc tbl_s", "truncate table tbl_s",
@@ -583,11 +586,17 @@ func genExecOf(s src, ref, n int) cmdInput {
 }
 
 // genCmd appends one command; prepared holds the marker counts of the statements prepared so far in the case.
-func genCmd(s src, prepared *[]int) cmdInput {
+func genCmd(s src, prepared *[]int) cmdInput { return genCmdKind(s, prepared, -1) }
+
+// genCmdKind is genCmd with the command kind given (force >= 0) instead of drawn.
+func genCmdKind(s src, prepared *[]int, force int) cmdInput {
 	c := cmdInput{Trunc: -1}
 	kinds := []byte{comQuery, comQuery, comQuery, comStmtPrepare, comStmtPrepare, comStmtPrepare, comStmtExecute, comStmtExecute, comStmtExecute, comStmtExecute,
 		comStmtLongData, comStmtLongData, comStmtReset, comStmtClose, comFieldList, comFieldList, comInitDB, 0 /*unknown*/, comPing, comSetOption}
 	c.Cmd = kinds[s.pick("cmd", len(kinds))]
+	if force >= 0 {
+		c.Cmd = byte(force)
+	}
 	nparams := 0
 	switch c.Cmd {
 	case comQuery:
@@ -769,9 +778,17 @@ func genCase(s src, handshakePhase bool) c38Case {
 		c38.Handshake = genHS(s)
 		ncmd = s.pick("ncmd_hs", 3)
 	}
+	if !handshakePhase {
+		c38.ConnDB = []int{0, 0, 0, 1, 1, 2}[s.pick("conn_db", 6)]
+	}
 	for i := 0; i < ncmd; i++ {
 		before := len(prepared)
-		cmd := genCmd(s, &prepared)
+		force := -1
+		if c38.ConnDB != 0 && s.pick("db_sensitive_cmd", 3) != 2 {
+			// a session without a usable database: prefer the commands that look the database up
+			force = int([]byte{comFieldList, comFieldList, comFieldList, comQuery, comStmtPrepare, comInitDB}[s.pick("db_sensitive_kind", 6)])
+		}
+		cmd := genCmdKind(s, &prepared, force)
 		c38.Cmds = append(c38.Cmds, cmd)
 		// a statement prepared from a mutated text is usually executed right away (well-formed EXECUTE):
 		// the text reaches the query path of the proxy only then
